@@ -28,6 +28,9 @@ Model/Vhd.vos Model/Vhd.vok Model/Vhd.required_vos: Model/Vhd.v Base/Arith.vos B
 Model/Vmdk.vo Model/Vmdk.glob Model/Vmdk.v.beautified Model/Vmdk.required_vo: Model/Vmdk.v Base/Arith.vo Base/Plan.vo Base/Table.vo Base/Layout.vo Gen/Consts.vo Gen/Layouts.vo Gen/VmdkTables.vo
 Model/Vmdk.vio: Model/Vmdk.v Base/Arith.vio Base/Plan.vio Base/Table.vio Base/Layout.vio Gen/Consts.vio Gen/Layouts.vio Gen/VmdkTables.vio
 Model/Vmdk.vos Model/Vmdk.vok Model/Vmdk.required_vos: Model/Vmdk.v Base/Arith.vos Base/Plan.vos Base/Table.vos Base/Layout.vos Gen/Consts.vos Gen/Layouts.vos Gen/VmdkTables.vos
+Model/VmdkDesc.vo Model/VmdkDesc.glob Model/VmdkDesc.v.beautified Model/VmdkDesc.required_vo: Model/VmdkDesc.v Base/Arith.vo Base/Plan.vo Base/Table.vo Model/Vmdk.vo Gen/VmdkTables.vo
+Model/VmdkDesc.vio: Model/VmdkDesc.v Base/Arith.vio Base/Plan.vio Base/Table.vio Model/Vmdk.vio Gen/VmdkTables.vio
+Model/VmdkDesc.vos Model/VmdkDesc.vok Model/VmdkDesc.required_vos: Model/VmdkDesc.v Base/Arith.vos Base/Plan.vos Base/Table.vos Model/Vmdk.vos Gen/VmdkTables.vos
 Proofs/Vhd.vo Proofs/Vhd.glob Proofs/Vhd.v.beautified Proofs/Vhd.required_vo: Proofs/Vhd.v Base/Arith.vo Base/Plan.vo Base/Table.vo Model/Vhd.vo
 Proofs/Vhd.vio: Proofs/Vhd.v Base/Arith.vio Base/Plan.vio Base/Table.vio Model/Vhd.vio
 Proofs/Vhd.vos Proofs/Vhd.vok Proofs/Vhd.required_vos: Proofs/Vhd.v Base/Arith.vos Base/Plan.vos Base/Table.vos Model/Vhd.vos
@@ -40,3 +43,6 @@ Props/C02.vos Props/C02.vok Props/C02.required_vos: Props/C02.v Base/Plan.vos Ba
 Props/C04.vo Props/C04.glob Props/C04.v.beautified Props/C04.required_vo: Props/C04.v Base/Plan.vo Base/Table.vo Model/Vhd.vo Proofs/Vhd.vo
 Props/C04.vio: Props/C04.v Base/Plan.vio Base/Table.vio Model/Vhd.vio Proofs/Vhd.vio
 Props/C04.vos Props/C04.vok Props/C04.required_vos: Props/C04.v Base/Plan.vos Base/Table.vos Model/Vhd.vos Proofs/Vhd.vos
+Props/C10.vo Props/C10.glob Props/C10.v.beautified Props/C10.required_vo: Props/C10.v Model/VmdkDesc.vo
+Props/C10.vio: Props/C10.v Model/VmdkDesc.vio
+Props/C10.vos Props/C10.vok Props/C10.required_vos: Props/C10.v Model/VmdkDesc.vos
